@@ -95,7 +95,7 @@ Definition find_post (s : tstate) (r : res (option token)) : Prop :=
   match r with
   | RPanic => False
   | R o s1 => length (errs s) <= length (errs s1) /\
-              (o = None -> length (errs s1) = length (errs s) -> lb s1)
+              (o = None -> length (errs s1) = length (errs s) -> lb s1 /\ length (rest (buf s1)) < length (rest (buf s)))
   end.
 
 Lemma find_ok : forall g n s conc, length (rest (buf s)) < g -> find_post s (find g n s conc).
@@ -105,7 +105,8 @@ Proof.
   - destruct (read_ok_lb s x s1 E) as (L1 & Ee & Hr).
     assert (Hg1 : length (rest (buf s1)) < g) by lia.
     destruct (skips n x).
-    { specialize (IH n s1 conc Hg1). destruct (find g n s1 conc) as [o s2|]; [|exact IH]. cbn [find_post] in *. rewrite <- Ee. exact IH. }
+    { specialize (IH n s1 conc Hg1). destruct (find g n s1 conc) as [o s2|]; [|exact IH]. cbn [find_post] in *. rewrite <- Ee.
+      destruct IH as [I1 I2]. split; [exact I1|]. intros Ho Hl. destruct (I2 Ho Hl) as [I3 I4]. split; [exact I3|lia]. }
     (* the dispatch on a byte b from a state s' whose errors are at least those of s and whose buffer is that of s1 *)
     assert (D : forall b s', buf s' = buf s1 -> length (errs s) <= length (errs s') ->
                   (length (errs s') = length (errs s) -> succ n b <> NoSucc) ->
@@ -132,13 +133,13 @@ Proof.
         destruct (block_comment _ s' _ _); [|exfalso; apply H1; reflexivity]. cbn [find_post grows] in *. split; [lia|discriminate].
       - assert (Hg' : length (rest (buf s')) < g) by (rewrite Hb; exact Hg1).
         specialize (IH n0 s' (conc ++ [b]) Hg'). destruct (find g n0 s' _) as [o s2|]; [|exact IH]. cbn [find_post] in *.
-        destruct IH as [I1 I2]. split; [lia|]. intros Ho Hl. apply I2; [exact Ho|lia].
+        destruct IH as [I1 I2]. split; [lia|]. intros Ho Hl. destruct (I2 Ho ltac:(lia)) as [I3 I4]. split; [exact I3|]. rewrite Hb in I4. lia.
       - cbn [find_post]. split; [exact He|]. intros _ Hl. exfalso. apply (Hns Hl). reflexivity. }
     destruct (succ n x) eqn:Es.
     all: try (specialize (D x s1 eq_refl ltac:(rewrite Ee; lia) ltac:(intros _; rewrite Es; discriminate)); cbv zeta in D; rewrite Es in D; exact D).
     (* NoSucc *)
     destruct conc as [|c0 conc0].
-    + cbn [find_post]. split; [rewrite Ee; lia|]. intros _ _. exact L1.
+    + cbn [find_post]. split; [rewrite Ee; lia|]. intros _ _. split; [exact L1|exact Hr].
     + specialize (D (first_valid n) (add_err s1 KOther) eq_refl ltac:(rewrite add_err_len, Ee; lia)
                     ltac:(rewrite add_err_len, Ee; lia)).
       exact D.
@@ -161,7 +162,7 @@ Proof.
   destruct (last_err (errs s1)) as [[| | |]|]; try discriminate;
     (destruct ot as [t|]; [discriminate|]);
     (destruct (Nat.ltb_spec (length (errs s)) (length (errs s1))) as [Hlt|Hge]; [discriminate|]);
-    (destruct (unread_lb s1 (H2 eq_refl ltac:(lia))) as (s2 & -> & _));
+    (destruct (unread_lb s1 (proj1 (H2 eq_refl ltac:(lia)))) as (s2 & -> & _));
     (destruct (read_rune (buf s2)) as [[c|[|]] b3]; try discriminate);
     (destruct (is_letter c); [apply next_ident_ok|discriminate]).
 Qed.
